@@ -814,6 +814,8 @@ def MatchExpr(e, m, tks, result = None):
     elif isinstance(e, ExprOp):
         if not isinstance(m, ExprOp):
             return False
+        if e.op != m.op or len(e.args) != len(m.args):
+            return False
         for a1, a2 in zip(e.args, m.args):
             r = MatchExpr(a1, a2, tks, result)
             if r == False:
@@ -834,21 +836,24 @@ def MatchExpr(e, m, tks, result = None):
     elif isinstance(e, ExprCond):
         if not isinstance(m, ExprCond):
             return False
+        # an empty result dictionary is a successful match that bound nothing yet
         r = MatchExpr(e.cond, m.cond, tks, result)
-        if not r: return False
+        if r == False: return False
         r = MatchExpr(e.src1, m.src1, tks, result)
-        if not r: return False
+        if r == False: return False
         r = MatchExpr(e.src2, m.src2, tks, result)
-        if not r: return False
+        if r == False: return False
         return result
     elif isinstance(e, ExprCompose):
         if not isinstance(m, ExprCompose):
+            return False
+        if len(e.args) != len(m.args):
             return False
         for a1, a2 in zip(e.args, m.args):
             if a1[1] != a2[1] or a1[2] != a2[2]:
                 return False
             r = MatchExpr(a1[0], a2[0], tks, result)
-            if not r:
+            if r == False:
                 return False
         return result
     else:
